@@ -8,6 +8,7 @@ Msg(i)   == F(0, 3, "msg", i)
 Big(i)   == F(0, 8, "msg", i)
 Zero     == F(0, 0, "zero", 0)
 ZeroC    == F(1, 0, "zero", 0)
+ZeroG    == FC(1, 20, 0, "zero", 0, FALSE)   \* the zero message, really compressed: a non-empty frame that inflates to nothing
 CMsg(i)  == FC(1, 4, 6, "msg", i, FALSE)     \* wire 4 bytes, inflates to 6
 CBad     == FC(1, 4, 4, "msg", 9, TRUE)
 Bad      == F(0, 2, "bad", 0)
@@ -21,12 +22,12 @@ Junk      == F(4, 1, "endok", 0)
 Bodies(p) ==
   IF p = "grpc"
   THEN { <<Msg(1)>>, <<Zero, Msg(2), Zero>>, <<>>, <<Bad>>, <<Msg(1), Junk>>, <<CMsg(1), Msg(2)>>,
-         <<CBad>>, <<Big(1)>>, <<Msg(1), ZeroC, Big(2)>>, <<Bad, Msg(2)>>, <<Big(1), Msg(2)>> }
+         <<CBad>>, <<Big(1)>>, <<Msg(1), ZeroC, Big(2)>>, <<Bad, Msg(2)>>, <<Big(1), Msg(2)>>, <<CMsg(1), ZeroG, Msg(2)>> }
   ELSE { <<Msg(1), EndOK(p)>>, <<Zero, Msg(2), Zero, EndOK(p)>>, <<Msg(1), Msg(2)>>, <<>>, <<EndOK(p)>>,
          <<Bad, EndOK(p)>>, <<Msg(1), EndErr(p)>>, <<Junk>>, <<CMsg(1), EndOK(p)>>, <<CBad, EndOK(p)>>,
          <<Msg(1), EndBad(p)>>, <<Msg(1), EndOK(p), Msg(2)>>, <<Big(1), EndOKC(p)>>, <<Msg(1), ZeroC, EndOK(p)>>,
          \* a message after one that cannot be delivered: what comes after the failure (C14 stickiness, C03)
-         <<Bad, Msg(2), EndOK(p)>>, <<Big(1), Msg(2), EndOK(p)>> }
+         <<Bad, Msg(2), EndOK(p)>>, <<Big(1), Msg(2), EndOK(p)>>, <<CMsg(1), ZeroG, EndOK(p)>> }
 
 Base(p, sd, lim, enc, b, c, t, tr) ==
   [proto |-> p, side |-> sd, shape |-> "stream", raw |-> FALSE, reuse |-> TRUE, limit |-> lim, enc |-> enc,
